@@ -52,6 +52,43 @@ example : (writeGeometry [104, 105] 1 1 [1065353216, 0, 3212836864] [0, -1, 2147
     (by decide) rfl rfl (by decide) (by decide) (by decide) (by decide)
     (fun vi h => by cases h; exact exVol_ok)
 
+/-- **Integer tokens.**  `int(str(v)) = v` for every integer, and the token `str(v)` is a value token of the
+    footer text (non-empty, no whitespace, no `=`) -/
+theorem int_token_roundtrip (v : Int) : intParse (intRepr v) = .ok v ∧ TokOk (intRepr v) :=
+  ⟨intParse_intRepr v, intRepr_tokOk v⟩
+
+example : intParse (intRepr (-2560)) = .ok (-2560) ∧ TokOk (intRepr (-2560)) := int_token_roundtrip _
+
+/-- **Geometry round trip with the `volume` entry as integers.**  Whatever three integers the caller stores
+    in `volume_info['volume']`, the footer `write_geometry` writes (their `str()` tokens) is read back and
+    `int()` of the tokens returns the same three integers; all other entries as in `geometry_roundtrip`. -/
+theorem geometry_roundtrip_int_volume (stamp : Bytes) (nv nf : Nat) (coords : List Nat) (faces : List Int)
+    (vi : VolInfo) (a b c : Int)
+    (hs : 10 ∉ stamp) (hc : coords.length = 3 * nv) (hf : faces.length = 3 * nf)
+    (hnv : 3 * nv < 2147483648) (hnf : 3 * nf < 2147483648)
+    (hcb : ∀ x ∈ coords, x < 4294967296) (hfb : ∀ x ∈ faces, inI32 x = true)
+    (hrest : ∀ t, Vec3Ok t → VolOk { vi with volume := t }) :
+    ∃ g, (writeGeometry stamp nv nf coords faces (some { vi with volume := [a, b, c].map intRepr })).bind
+        (readGeometry true) = .ok g ∧
+      g.vol = some { vi with volume := [a, b, c].map intRepr } ∧
+      g.vol.map (fun v => intsParse v.volume) = some (.ok [a, b, c]) := by
+  have hv : Vec3Ok ([a, b, c].map intRepr) :=
+    ⟨_, _, _, rfl, intRepr_tokOk a, intRepr_tokOk b, intRepr_tokOk c⟩
+  refine ⟨_, geometry_roundtrip true stamp nv nf coords faces _ hs hc hf hnv hnf hcb hfb
+    (fun v h => by cases h; exact hrest _ hv), rfl, ?_⟩
+  simp only [if_true, Option.map_some, intsParse_map]
+
+/-- non-vacuity: the example dictionary with any `volume` vector satisfies `hrest`; negative, zero and large
+    extents -/
+example : ∃ g, (writeGeometry [104, 105] 0 0 [] [] (some { exVol with volume := [-3, 0, 4294967296].map intRepr })).bind
+        (readGeometry true) = .ok g ∧
+      g.vol = some { exVol with volume := [-3, 0, 4294967296].map intRepr } ∧
+      g.vol.map (fun v => intsParse v.volume) = some (.ok [-3, 0, 4294967296]) :=
+  geometry_roundtrip_int_volume [104, 105] 0 0 [] [] exVol (-3) 0 4294967296 (by decide) rfl rfl (by decide) (by decide)
+    (by decide) (by decide)
+    (fun _ ht => ⟨exVol_ok.head, exVol_ok.valid, exVol_ok.filename, ht, exVol_ok.voxelsize, exVol_ok.xras,
+      exVol_ok.yras, exVol_ok.zras, exVol_ok.cras⟩)
+
 /-- **Morphometry round trip.**  Every accepted shape ((n,), (n,1), (1,n), (n,1,1) for every n < 2^31)
     with any face count in int32 range reads back the flat vector of the same float32 patterns. -/
 theorem morph_roundtrip (shape : List Nat) (vals : List Nat) (fnum : Int)
